@@ -20,7 +20,10 @@ var fsPaths = []string{"metadata/labels", "metadata/annotations", "spec/template
 
 func init() {
 	components["fieldspec.apply"] = func(r *rand.Rand, tier string) (map[string]interface{}, func() (interface{}, string)) {
-		ka := [][2]string{{"Deployment", "apps/v1"}, {"MyKind", "example.com/v1"}, {"StatefulSet", "apps/v1"}}[r.Intn(3)]
+		// the resource's group / version / kind and the spec's are also near misses of each other (one a proper prefix of the
+		// other: `v1` / `v1beta2`, `apps` / `app`, `Deployment` / `Deploy`): a selector is an equality per field (seed C02i)
+		ka := [][2]string{{"Deployment", "apps/v1"}, {"MyKind", "example.com/v1"}, {"StatefulSet", "apps/v1"},
+			{"Deployment", "apps/v1beta2"}, {"MyKind", "example.com/v1alpha1"}, {"Service", "serving.knative.dev/v1alpha1"}}[r.Intn(6)]
 		doc := genObject(r, ka[0], ka[1])
 		g, v := resid.ParseGroupVersion(ka[1])
 		spec := types.FieldSpec{Path: pick(r, fsPaths), CreateIfNotPresent: r.Intn(2) == 0}
@@ -67,11 +70,11 @@ func init() {
 		}
 		switch r.Intn(5) {
 		case 0:
-			spec.Kind = pick(r, []string{"Deployment", "Service"})
+			spec.Kind = pick(r, []string{"Deployment", "Service", "Deploy", "My", "Deployments"})
 		case 1:
-			spec.Group = pick(r, []string{"apps", "batch"})
+			spec.Group = pick(r, []string{"apps", "batch", "app", "example", "apps.v1"})
 		case 2:
-			spec.Version = "v1"
+			spec.Version = pick(r, []string{"v1", "v1", "v1beta", "v1beta2", "v", "v1alpha1x"})
 		}
 		ck := r.Intn(4)
 		createKind := map[int]yaml.Kind{0: 0, 1: yaml.ScalarNode, 2: yaml.MappingNode, 3: yaml.SequenceNode}[ck]
